@@ -754,7 +754,10 @@ fn process_input(
         have_pending_command = true;
     }
 
-    if !options.no_run_if_empty || have_pending_command {
+    // With -I/-i there is nothing to substitute when no argument was read, so
+    // the command is not run at all (empty input is not an error).
+    let run_without_args = !options.no_run_if_empty && builder_options.replace.is_none();
+    if run_without_args || have_pending_command {
         result.combine(current_builder.execute()?);
     }
 
